@@ -41,7 +41,7 @@ def run_seed(prop, seed, repo="/repo"):
         ok, why = apply_edits(scratch, seed["edits"])
         if not ok:
             return {"seed": seed["name"], "status": "skipped", "why": why}
-        env = dict(os.environ, RPX_REPO=scratch, RPX_EVIDENCE_DIR=evid)
+        env = dict(os.environ, RPX_REPO=scratch, RPX_EVIDENCE_DIR=evid, RPX_FACTS_EPHEMERAL="1")
         r = subprocess.run([sys.executable, os.path.join(VERIF, "check.py"), prop, "--tier", "quick", "--no-selftest"],
                            env=env, capture_output=True, text=True, cwd=VERIF)
         rules = re.findall(r"^\s+rule=(\S+) at", r.stdout, re.M)
